@@ -148,6 +148,8 @@ var X *Exec
 
 var wdSteps int64 // watchdog progress counter
 
+var realStderr = os.Stderr // harness workers redirect os.Stderr (library noise)
+
 func init() {
 	go func() {
 		var last int64 = -1
@@ -160,7 +162,7 @@ func init() {
 				if idle >= 6 {
 					buf := make([]byte, 1<<20)
 					n := runtime.Stack(buf, true)
-					fmt.Fprintf(os.Stderr, "vsched: ENGINE ERROR watchdog: no scheduling point reached for 30s\n%s\n", buf[:n])
+					fmt.Fprintf(realStderr, "vsched: ENGINE ERROR watchdog: no scheduling point reached for 30s\n%s\n", buf[:n])
 					os.Exit(2)
 				}
 			} else {
@@ -340,7 +342,7 @@ func (x *Exec) spawn(name string, body func()) *Thread {
 		defer func() {
 			if r := recover(); r != nil {
 				if ee, ok := r.(engineError); ok {
-					fmt.Fprintln(os.Stderr, ee.Error())
+					fmt.Fprintln(realStderr, ee.Error())
 					os.Exit(2)
 				}
 				if !x.aborting {
